@@ -11,3 +11,5 @@ pub mod util;
 pub mod verification_thread;
 #[cfg(saito_verif)]
 pub mod verif_hooks;
+#[cfg(saito_verif)]
+pub mod verif_lock;
